@@ -23,8 +23,9 @@ class Case:
     driver (model and oracle); `oracle_applies` = the property's oracle has a verdict on it."""
 
     def __init__(self, kind, cfg, hline, lline=None, tag="", oracle_applies=True, impl=None, model=None,
-                 oracle=None, feats=(), nontrivial=True, oracle_prefix=False):
+                 oracle=None, feats=(), nontrivial=True, oracle_prefix=False, expect_no_panic=False):
         self.oracle_prefix = oracle_prefix
+        self.expect_no_panic = expect_no_panic
         self.kind, self.cfg, self.hline, self.lline = kind, cfg, hline, lline or hline
         self.tag, self.oracle_applies = tag, oracle_applies
         self.impl, self.model, self.oracle = impl, model, oracle
@@ -33,7 +34,8 @@ class Case:
 
     def to_json(self):
         return {"kind": self.kind, "cfg": self.cfg, "hline": self.hline, "lline": self.lline, "tag": self.tag,
-                "oracle_applies": self.oracle_applies, "oracle_prefix": self.oracle_prefix, "impl": self.impl, "model": self.model,
+                "oracle_applies": self.oracle_applies, "oracle_prefix": self.oracle_prefix,
+                "expect_no_panic": self.expect_no_panic, "impl": self.impl, "model": self.model,
                 "oracle": self.oracle, "feats": list(self.feats)}
 
 
@@ -80,6 +82,43 @@ def pipe(args, lines):
     return p.returncode, out
 
 
+def pipe_par(args, lines, nproc=16):
+    """like pipe, but spread over processes when the stream contains expensive `sweep` lines"""
+    heavy = sum(1 for l in lines if l.startswith("sweep"))
+    if heavy < 2:
+        return pipe(args, lines)
+    from concurrent.futures import ThreadPoolExecutor
+    idx_heavy = [i for i, l in enumerate(lines) if l.startswith("sweep")]
+    idx_light = [i for i, l in enumerate(lines) if not l.startswith("sweep")]
+    chunks = [idx_heavy[k::nproc] for k in range(nproc)]
+    chunks = [c for c in chunks if c] + ([idx_light] if idx_light else [])
+    out = [None] * len(lines)
+    with ThreadPoolExecutor(max_workers=nproc + 1) as ex:
+        res = list(ex.map(lambda c: pipe(args, [lines[i] for i in c]), chunks))
+    for c, (rc, o) in zip(chunks, res):
+        if rc != 0 or len(o) != len(c):
+            return 1, []
+        for i, x in zip(c, o):
+            out[i] = x
+    return 0, out
+
+
+def run_harness_par(exe, lines):
+    heavy = [i for i, l in enumerate(lines) if l.startswith("sweep")]
+    if len(heavy) < 2:
+        return run_harness(exe, lines)
+    from concurrent.futures import ThreadPoolExecutor
+    light = [i for i, l in enumerate(lines) if not l.startswith("sweep")]
+    chunks = [c for c in (heavy[k::16] for k in range(16)) if c] + ([light] if light else [])
+    out = [None] * len(lines)
+    with ThreadPoolExecutor(max_workers=17) as ex:
+        res = list(ex.map(lambda c: run_harness(exe, [lines[i] for i in c]), chunks))
+    for c, o in zip(chunks, res):
+        for i, x in zip(c, o):
+            out[i] = x
+    return out
+
+
 def run_harness(exe, lines):
     if not lines:
         return []
@@ -102,14 +141,14 @@ def execute(ctx, cases, corr):
         if exe is None:
             raise HarnessUnavailable(f"harness for configuration {cfg} {feats} does not build")
         ctx.cfgs_used.add(cfg + ("+" + "+".join(feats) if feats else ""))
-        outs = run_harness(exe, [c.hline for c in cs])
+        outs = run_harness_par(exe, [c.hline for c in cs])
         for c, o in zip(cs, outs):
             c.impl = o
     llines = [c.lline for c in cases]
-    rc, mout = pipe([DRIVER], llines)
+    rc, mout = pipe_par([DRIVER], llines)
     if rc != 0 or len(mout) != len(cases):
         raise HarnessUnavailable("Lean driver failed on the case stream")
-    rc, oout = pipe([DRIVER, "--oracle"], llines)
+    rc, oout = pipe_par([DRIVER, "--oracle"], llines)
     if rc != 0 or len(oout) != len(cases):
         raise HarnessUnavailable("Lean driver (oracle mode) failed on the case stream")
     seen = set()
@@ -131,6 +170,12 @@ def execute(ctx, cases, corr):
             continue
         if c.impl != c.model:
             corr["model_disagreements"].append(c)
+        if c.expect_no_panic and (c.impl in ("panic", "abort") or c.impl.startswith("nondeterministic") or
+                                  (c.kind == "sweep" and " panic=0 " not in c.impl)):
+            # the property itself (C04): whatever the model says, this outcome is a violation
+            c.oracle = "returns Ok or Err (no panic / abort / hang), the same every time"
+            corr["oracle_failures"].append(c)
+            continue
         if c.oracle_applies and (not c.impl.startswith(c.oracle) if c.oracle_prefix else c.impl != c.oracle):
             corr["oracle_failures"].append(c)
         elif getattr(c, "check_canon", None) and c.impl not in ("err", "-") and not c.impl.startswith(("panic", "bad", "abort")):
@@ -159,6 +204,29 @@ def execute(ctx, cases, corr):
             # the property itself: this message must decode exactly like its companion
             c.oracle = "same as: " + c.same_as.hline[:120] + " -> " + c.same_as.impl[:200]
             corr["oracle_failures"].append(c)
+    # a sweep whose digest differs (or that saw a panic) is narrowed down to single inputs
+    bad_sweeps = [c for c in cases if c.kind == "sweep" and
+                  (c in corr["model_disagreements"] or c in corr["oracle_failures"])]
+    if bad_sweeps and not getattr(ctx, "_refining", 0) > 6:
+        ctx._refining = getattr(ctx, "_refining", 0) + 1
+        sub = []
+        for c in bad_sweeps[:4]:
+            _, cfg, pre, n = c.hline.split(" ")
+            pre = "" if pre == "-" else pre
+            n = int(n)
+            for b in range(256):
+                if n > 1:
+                    sub.append(Case("sweep", cfg, f"sweep {cfg} {pre}{b:02x} {n - 1}", tag="refine", expect_no_panic=True))
+                elif n == 1:
+                    sub.append(Case("req", cfg, f"req {cfg} {pre}{b:02x}", tag="refined input", expect_no_panic=True))
+        if sub:
+            for c in bad_sweeps[:4]:
+                for lst in (corr["model_disagreements"], corr["oracle_failures"]):
+                    if c in lst and c.hline.split(" ")[3] != "0":
+                        lst.remove(c)
+            execute(ctx, sub, corr)
+        ctx._refining -= 1
+        return
     corr["distinct_nontrivial"] += len(seen)
     step = max(1, len(cases) // 8)
     for c in cases[::step][:8]:
@@ -1271,6 +1339,107 @@ def cases_c16(ctx, boost):
     return out
 
 
+# =============================================================================== C04
+PARAM_BYTES = [0x01, 0x02, 0x06, 0x0A, 0x0C, 0x41]
+
+
+def np(case):
+    case.expect_no_panic = True
+    return case
+
+
+def cases_c04(ctx, boost):
+    out = []
+    for cfg in ctx.cfgs(("000", "111")):
+        g = ctx.gen(cfg)
+        rng = g.rng
+        # ---- exhaustive short inputs (digest + outcome classes, impl = model = oracle)
+        for n in (0, 1, 2):
+            out.append(np(Case("sweep", cfg, f"sweep {cfg} - {n}", tag=f"all inputs of length {n}")))
+        if ctx.tier == "thorough":
+            for b in range(256):
+                out.append(np(Case("sweep", cfg, f"sweep {cfg} {b:02x} 2", tag="all inputs of length 3")))
+            for b in PARAM_BYTES:
+                for b2 in range(256):
+                    out.append(np(Case("sweep", cfg, f"sweep {cfg} {b:02x}{b2:02x} 2", tag="length 4, parameter-bearing command")))
+        else:
+            for b in PARAM_BYTES:
+                out.append(np(Case("sweep", cfg, f"sweep {cfg} {b:02x} 2", tag="length 3, parameter-bearing command")))
+            # a slice of length 4: map / array / string heads after the command byte
+            for b in PARAM_BYTES:
+                for b2 in (0xa1, 0xa2, 0xbf, 0x81, 0x9f, 0x5f, 0x7f, 0xb8, 0xb9, 0xba, 0xbb):
+                    out.append(np(Case("sweep", cfg, f"sweep {cfg} {b:02x}{b2:02x} 2", tag="length 4 slice")))
+        # ---- well-formed messages under byte-level mutation at every offset
+        msgs = []
+        for variant, payload in ctx.data["schemas"][cfg]["variants"]["request_variants"]:
+            if not payload or payload == "vendor":
+                continue
+            per = []
+            for tag, body in request_messages(g, variant, payload, 3 * boost, subsets=False):
+                for cb in CMD_BYTE.get(variant, [])[:1]:
+                    per.append((variant, bytes([cb]) + body))
+            full = g.rand_val({"named": payload}, p_opt=1.0)
+            for cb in CMD_BYTE.get(variant, [])[:1]:
+                per.append((variant, bytes([cb]) + casegen.enc_item(g.wire_item({"named": payload}, full, lossy=0.0))))
+            msgs += per
+        allb = [m for _, m in msgs]
+        for variant, m in msgs:
+            out.append(np(Case("req", cfg, f"req {cfg} {m.hex()}", tag=f"{variant} well-formed")))
+            step = 1 if (ctx.tier == "thorough" or len(m) < 400) else 3
+            for i in range(0, len(m), step):
+                out.append(np(Case("req", cfg, f"req {cfg} {m[:i].hex() or '-'}", tag="truncate")))
+                fl = bytearray(m); fl[i] ^= 1 << rng.randrange(8)
+                out.append(np(Case("req", cfg, f"req {cfg} {bytes(fl).hex()}", tag="flip")))
+                out.append(np(Case("req", cfg, f"req {cfg} {(m[:i] + m[i + 1:]).hex() or '-'}", tag="delete")))
+                ins = bytes([rng.choice([rng.randrange(256), 0x1b, 0x5b, 0x7b, 0x9b, 0xbb, 0xbf, 0x9f, 0x7f, 0xff, 0xf6, 0x78, 0x58])])
+                out.append(np(Case("req", cfg, f"req {cfg} {(m[:i] + ins + m[i:]).hex()}", tag="insert")))
+                if i % 4 == 0:
+                    o = rng.choice(allb)
+                    j = rng.randrange(len(o))
+                    sp = (m[:i] + o[j:])[:7609]
+                    out.append(np(Case("req", cfg, f"req {cfg} {sp.hex()}", tag="splice")))
+                    st = bytearray(m); st[i] = rng.choice([0x00, 0x17, 0x18, 0x1f, 0x40, 0x5f, 0x60, 0x7f, 0x80, 0x9f, 0xa0, 0xbf, 0xc0, 0xf4, 0xf6, 0xf7, 0xff])
+                    out.append(np(Case("req", cfg, f"req {cfg} {bytes(st).hex()}", tag="set head byte")))
+        # ---- deep nesting up to the message size limit, in skipped and in typed positions
+        for depth in ([16, 300, 2000, 7590] if ctx.tier == "quick" else [1, 2, 16, 64, 300, 1000, 2000, 4000, 7000, 7590, 7600]):
+            for cb, hostkey in ((1, "07"), (2, "05")):             # options map of MakeCredential / GetAssertion
+                pre = bytes([cb]) + bytes.fromhex("a1" + hostkey + "a1627a7a")
+                room = 7609 - len(pre) - 1
+                d = min(depth, room)
+                for nm, unit, tail in (("arrays", b"\x81", b"\x00"), ("tags", b"\xc0", b"\x00"),
+                                       ("indefinite arrays", b"\x9f", b"\xff"), ("text heads", b"\x7f", b"\xff")):
+                    body = unit * d + tail
+                    out.append(np(Case("req", cfg, f"req {cfg} {(pre + body).hex()}", tag=f"deep {nm} (skipped position)")))
+                dm = min(depth, room // 2)
+                A1, Z, A101, A81 = bytes([0xa1]), bytes([0]), bytes([0xa1, 1]), bytes([0x81])
+                out.append(np(Case("req", cfg, f"req {cfg} {(pre + A1 * dm + Z * (dm + 1)).hex()}", tag="deep maps (skipped position)")))
+                out.append(np(Case("req", cfg, f"req {cfg} {(bytes([cb]) + A101 * min(depth, 3800) + Z).hex()}", tag="deep maps (typed position)")))
+                out.append(np(Case("req", cfg, f"req {cfg} {(bytes([cb]) + A81 * min(depth, 7600) + Z).hex()}", tag="deep arrays (typed position)")))
+        # ---- long strings / byte strings / lists: heads that promise more than is there, and maximal real lengths
+        for cb in PARAM_BYTES:
+            for head_ in ("5a7fffffff", "5affffffff", "5bffffffffffffffff", "7affffffff", "7bffffffffffffffff", "9affffffff",
+                          "9bffffffffffffffff", "baffffffff", "bbffffffffffffffff", "bb0000000000000001", "1bffffffffffffffff",
+                          "3bffffffffffffffff", "fb7ff0000000000000", "f97c00", "d9d9f7a0", "ff"):
+                out.append(np(Case("req", cfg, f"req {cfg} {cb:02x}{head_}", tag="oversized head")))
+                out.append(np(Case("req", cfg, f"req {cfg} {cb:02x}a101{head_}", tag="oversized head (member 1)")))
+                out.append(np(Case("req", cfg, f"req {cfg} {cb:02x}a102{head_}{'00' * 40}", tag="oversized head (member 2)")))
+            big = 7609 - 8
+            out.append(np(Case("req", cfg, f"req {cfg} {cb:02x}a10159{big - 4:04x}{'41' * (big - 4)}", tag="maximal byte string")))
+            out.append(np(Case("req", cfg, f"req {cfg} {cb:02x}a10279{big - 4:04x}{'41' * (big - 4)}", tag="maximal text string")))
+            out.append(np(Case("req", cfg, f"req {cfg} {cb:02x}a10399{(big - 4):04x}{'00' * (big - 4)}", tag="maximal list")))
+    # ---- structure-level mutation: every bounded member across its limit (shared with C12)
+    for c in cases_c12(ctx, boost):
+        out.append(np(c))
+    # ---- the two lossy list readers at and beyond their capacity (shared with C14)
+    for c in cases_c14(ctx, boost):
+        out.append(np(c))
+    # ---- every public type through cbor_deserialize::<T>: values and random mutations
+    for cfg in ctx.cfgs(("000", "111")):
+        for c in wire_cases(ctx, cfg, 2 * boost, kinds=("dec", "extra", "mut"), salt=404):
+            out.append(np(c))
+    return out
+
+
 NOT_YET = {}
 
 PROPS = {
@@ -1471,6 +1640,34 @@ PROPS = {
                     "harness has that const-generic instantiation, 64,256,1024,3072,7609} × prior {empty, half, full sentinel}",
             "assumptions": ["capacity >= 1 (the property's hypothesis; capacity 0 would panic in split_first_mut().unwrap())",
                             "the serializer's chunking is abstracted: the theorem holds for every chunking"]},
+    "C04": {"ns": "C04", "cases": cases_c04, "uses": ["decode_never_panics", "truncateStr_valid"],
+            "level_text": "Proof (partial: the model's part). The decoder model is a total Lean function over the regenerated "
+                          "schemas (termination: structural recursion on the schema, element counts and a byte-length fuel "
+                          "for the skipper; determinism: functionality) whose result type has an explicit outcome for every "
+                          "panic-capable or undefined-behaviour site of ctap-types' own code on the decode path (the unsafe "
+                          "unwrap_unchecked in floor_char_boundary, the str slice and the push_str().unwrap() in truncate, the "
+                          "switch arms). G-TOTAL (Ctap/NoPanic.lean, mutual induction, decode_never_panics): for every schema "
+                          "whose truncating readers use the look-back window 3 and every input of any length, that outcome "
+                          "is unreachable, because the text handed to the truncating reader has passed from_utf8 and on "
+                          "well-formed text a boundary exists within 3 bytes (truncateStr_valid). Obligations (decide +kernel): "
+                          "all 256 command bytes are classified and every parameter-bearing command's regenerated schema — and "
+                          "every other regenerated type — is safe in all 8 configurations; window = 3. C04.never_panics / "
+                          "ok_or_err: Request::deserialize's model returns a request or an error status for all byte strings. "
+                          "NOT provable in the model and left to the correspondence: stack depth, arithmetic wrap and memory "
+                          "safety inside the dependencies (cbor-smol, heapless, serde), whose behaviour is modelled, not "
+                          "verified. Correspondence: harness built with debug assertions and overflow checks, every case under "
+                          "catch_unwind and decoded twice at different addresses (determinism); exhaustive inputs of length "
+                          "<= 2 (quick: + length 3 and a slice of length 4 after the six parameter-bearing command bytes; "
+                          "thorough: all of length 3 and all of length 4 after those bytes) compared by outcome classes and an "
+                          "order-independent digest of (input, outcome) with automatic narrowing to the differing input; "
+                          "well-formed messages for every command × truncate / flip / delete / insert at every offset, splice, "
+                          "head-byte substitution; nesting to the 7609-byte limit in skipped and typed positions; oversized and "
+                          "maximal heads; every bounded member across its limit (C12's cases); every public type's decoder.",
+            "rule": "see level; a sweep line counts as one evaluation although it covers 256^n inputs (reported under "
+                    "stats); non-trivial = the harness could pose the case",
+            "assumptions": ["dependencies behave as modelled (DESIGN.md App. A): their own panics / aborts / stack use are "
+                            "only observed by the correspondence, on an 8 MiB main-thread stack, 64-bit host",
+                            "Miri (undefined behaviour in executions that do not crash) is run in the thorough tier only"]},
     "C16": {"ns": "C16", "cases": cases_c16, "uses": ["ext_encode", "rt"],
             "level_text": "Proof. G-EXT (Ctap/Extend.lean, mutual induction): if schema t' extends schema t — integer-keyed "
                           "structs only gain optional skipped members after all existing ones, text-keyed structs gain optional "
